@@ -10,6 +10,6 @@ PROP = {
                '(0xFF), 8/16-bit length fields, truncation at every field boundary, and base64/prefix damage; versions 1-4 and unsupported versions are generated.',
  'level_note': 'Inputs with an out-of-range expiry field are first run in a forked child so a UBSan abort is reported with a signature and a shrunk case; other memory errors end the '
                'worker and are reported from crash.tape (not shrunk). libstdc++ vector annotations are off, so an over-read that stays inside the payload vector capacity (<= 2 bytes '
-               'when the base64 text is padded) is invisible; unpadded lengths are generated as often as padded ones.',
+               'when the base64 text is padded) is invisible; unpadded lengths are generated as often as padded ones. Second compiler: the same tapes also run against a g++ -O2 ASan/UBSan build of the code under test (engine \'tape-rc (second compiler…)\'), because the two compilers instrument and optimise undefined behaviour differently (e.g. abs(INT64_MIN) is only reported by g++\'s UBSan, and clang can fold such UB into a correct-looking result); failing tapes of that engine are kept as *.gcc.tape and replayed with that build.',
  'assumptions': ['ASan/UBSan report every out-of-bounds access / signed overflow executed', 'fork() is available to the worker'],
- 'tiers': {'quick': [rc(60000)], 'thorough': [rc(400000, W), fuzz(240, 8, max_len=17 + 10 * 24)]}}
+ 'tiers': {'quick': [rc(60000), rc(60000, suffix='_gcc')], 'thorough': [rc(400000, W), fuzz(240, 8, max_len=17 + 10 * 24), rc(400000, 4, suffix='_gcc')]}}
